@@ -13,7 +13,7 @@
    on the primitives at all; only [no_forgery] remains, for the integrity theorem. *)
 From Coq Require Import List NArith Arith Bool Lia.
 From GmsmVerif Require Import Lib.Outcome Rec.RecordSpec Rec.RecordModel Rec.RecordProofs Rec.RecordRoundtrip
-  Rec.RecordIntegrity Rec.RecordFragment Rec.RecordExtras Rec.RecordProgress Rec.RecordDuplex Rec.RecordHS Rec.RecordReadChunks Rec.RecordSM4.
+  Rec.RecordIntegrity Rec.RecordFragment Rec.RecordExtras Rec.RecordProgress Rec.RecordDuplex Rec.RecordHS Rec.RecordReadChunks Rec.RecordNonce Rec.RecordSM4.
 Import ListNotations.
 Local Open Scope nat_scope.
 
@@ -588,3 +588,67 @@ Proof.
   exists (t1 ++ t2). rewrite Ht2, Ht1, app_assoc. reflexivity.
 Qed.
 Print Assumptions C07_prefix_integrity_read.
+
+(* ======== 9. the GCM nonce never repeats ================================================================= *)
+
+(* AEAD sibling of C07_cbc_iv_from_stream: one pass of writeRecordLocked's loop with an AEAD cipher puts the
+   sequence number into the explicit nonce field (no randomness is consumed), seals under salt || seq with
+   additional data seq || type || version || length, and the nonce travels in clear behind the header. *)
+Theorem C07_gcm_nonce_is_seq :
+  forall P, prims_ok P -> forall c typ data c1 rec_ m key fixed s,
+    hc_cipher (o_hc c) = CipherAEAD key fixed -> hc_mac (o_hc c) = None ->
+    hc_seq (o_hc c) = be64 s -> (s < 2 ^ 64 - 1)%N ->
+    writeRecord_step P c typ data = Ok (Some (c1, rec_, m)) ->
+    o_rand c1 = o_rand c /\
+    exists hdr hdr', length hdr = 5 /\ length hdr' = 5 /\ firstn 3 hdr = firstn 3 hdr' /\
+      encrypt P (o_hc c) (hdr ++ be64 s ++ firstn m data) 8 = Ok (o_hc c1, rec_) /\
+      rec_ = hdr' ++ be64 s ++ p_seal P key (gcm_nonce fixed (be64 s))
+                                    (be64 s ++ firstn 3 hdr ++ len_bytes (length (firstn m data))) (firstn m data).
+Proof. intros P H. exact (gcm_nonce_is_seq_lemma P H). Qed.
+Print Assumptions C07_gcm_nonce_is_seq.
+
+(* Any history of Write calls on one connection with an AEAD suite, fewer than 2^64 records in all: record j
+   carries the explicit nonce be64 (s0 + j) - the sequence number -, the explicit nonces (hence the GCM
+   nonces salt || explicit) are pairwise distinct, and record j is header, nonce, seal under salt || nonce
+   with additional data seq || application_data || version || fragment length, over fragments that
+   concatenate to the writes. *)
+Theorem C07_gcm_nonces_never_repeat :
+  forall P, prims_ok P -> p_bs P + p_macSize P + p_bs P + p_overhead P + 8 <= 2048 ->
+  forall fuel cw writes cw' recs key fixed s0,
+    sender_ok cw -> hc_cipher (o_hc cw) = CipherAEAD key fixed -> hc_mac (o_hc cw) = None ->
+    hc_seq (o_hc cw) = be64 s0 -> (s0 + N.of_nat (length recs) < 2 ^ 64)%N ->
+    write_calls P fuel cw writes = Ok (cw', recs, false) ->
+    map explicit_nonce recs = map (fun j => be64 (s0 + N.of_nat j)) (seq 0 (length recs)) /\
+    NoDup (map explicit_nonce recs) /\
+    exists frs, concat frs = concat writes /\
+      forall j r, nth_error recs j = Some r ->
+        exists fr hdr', nth_error frs j = Some fr /\ length hdr' = 5 /\
+          r = hdr' ++ be64 (s0 + N.of_nat j) ++
+              p_seal P key (gcm_nonce fixed (be64 (s0 + N.of_nat j)))
+                     (aad (s0 + N.of_nat j) recordTypeApplicationData VersionGMSSL (length fr)) fr.
+Proof. intros P H Hexp. exact (gcm_nonces_never_repeat P H Hexp). Qed.
+Print Assumptions C07_gcm_nonces_never_repeat.
+
+Theorem C07_gcm_nonces_never_repeat_sm4 :
+  forall fuel cw writes cw' recs key fixed s0,
+    sender_ok cw -> hc_cipher (o_hc cw) = CipherAEAD key fixed -> hc_mac (o_hc cw) = None ->
+    hc_seq (o_hc cw) = be64 s0 -> (s0 + N.of_nat (length recs) < 2 ^ 64)%N ->
+    write_calls sm4_prims fuel cw writes = Ok (cw', recs, false) ->
+    map explicit_nonce recs = map (fun j => be64 (s0 + N.of_nat j)) (seq 0 (length recs)) /\
+    NoDup (map explicit_nonce recs).
+Proof.
+  intros fuel cw writes cw' recs key fixed s0 Hs Ec Em Hseq Hb Hw.
+  destruct (gcm_nonces_never_repeat sm4_prims sm4_prims_ok sm4_expansion_ok fuel cw writes cw' recs key fixed s0
+              Hs Ec Em Hseq Hb Hw) as [H1 [H2 _]]. auto.
+Qed.
+Print Assumptions C07_gcm_nonces_never_repeat_sm4.
+
+(* non-vacuity: the toy run of section 4 with the AEAD shape (sequence number 5): two records, nonces 5, 6 *)
+Example C07_gcm_nonce_example :
+  write_calls toy_prims 10 (ex_out ex_gcm None) ex_writes
+    = Ok (fst (fst (match write_calls toy_prims 10 (ex_out ex_gcm None) ex_writes with
+                    | Ok x => x | _ => (ex_out ex_gcm None, [], true) end)), ex_records ex_gcm None, false) /\
+  map explicit_nonce (ex_records ex_gcm None) = [be64 5; be64 6] /\
+  hc_cipher (o_hc (ex_out ex_gcm None)) = CipherAEAD [1; 2; 3]%N [4; 5; 6; 7]%N /\
+  hc_seq (o_hc (ex_out ex_gcm None)) = be64 5.
+Proof. vm_compute. repeat split; reflexivity. Qed.
